@@ -540,6 +540,25 @@ func shapeTC(t *rapid.T, sfx string, _ []string) Prog {
 	return Prog{Shape: "transitive-closure", Text: text}
 }
 
+// shapeDeferred: a query through a chain of 150-450 deferred (top-down evaluated) predicates, far below the
+// engine's nesting limit when a program runs alone; several start facts keep the job inside the chain for a while.
+func shapeDeferred(t *rapid.T, sfx string, _ []string) Prog {
+	depth := rapid.IntRange(150, 450).Draw(t, "deferred-depth")
+	var sb strings.Builder
+	for i := 0; i < depth; i++ {
+		fmt.Fprintf(&sb, "Decl d%d_%s(X) descr [mode('+'), deferred()] bound [/number].\n", i, sfx)
+	}
+	for i := 0; i < depth-1; i++ {
+		fmt.Fprintf(&sb, "d%[1]d_%[2]s(A) :- d%[3]d_%[2]s(A).\n", i, sfx, i+1)
+	}
+	fmt.Fprintf(&sb, "d%d_%s(A) :- A > 0.\n", depth-1, sfx)
+	for k, n := 0, rapid.IntRange(5, 40).Draw(t, "deferred-starts"); k < n; k++ {
+		fmt.Fprintf(&sb, "start_%s(%d).\n", sfx, k-2)
+	}
+	fmt.Fprintf(&sb, "ok_%[1]s(X) :- start_%[1]s(X), d0_%[1]s(X).\n", sfx)
+	return Prog{Shape: "deferred-chain", Text: sb.String()}
+}
+
 func shapeNeg(t *rapid.T, sfx string, _ []string) Prog {
 	var sb strings.Builder
 	for i := 0; i < 5; i++ {
@@ -667,7 +686,7 @@ var builtinsShape = shapeDef{shapeBuiltins, true}
 var shapes = []shapeDef{
 	builtinsShape, builtinsShape, builtinsShape, {shapeTC, false}, {shapeNeg, false}, {shapeAgg, false}, {shapeTInterval, false},
 	{shapeTSeq, false}, {shapeTOp, false}, {shapeTZ, false}, {shapeParseError, false}, {shapeAnalysisError, false},
-	{shapeColumnProgram, false}, {shapeColumnQueries, false}, {shapeDateHelpers, false},
+	{shapeColumnProgram, false}, {shapeColumnQueries, false}, {shapeDateHelpers, false}, {shapeDeferred, false},
 }
 
 // ---------------------------------------------------------------------------------------------
@@ -772,6 +791,12 @@ func genProgCase(t *rapid.T, minJobs, maxJobs int) ProgCase {
 			n = forced + column + dates
 		}
 	}
+	// In a quarter of the cases the jobs of the general draw (at least four) are all deferred-chain programs: nested
+	// top-down evaluations of several goroutines are deep at the same time.
+	deferredCase := rapid.IntRange(0, 3).Draw(t, "deferred-case") == 0
+	if deferredCase && n < forced+column+dates+4 {
+		n = forced + column + dates + 4
+	}
 	dateKinds := []string{"explicit", "default", ""}
 	for i := 0; i < n; i++ {
 		if i >= forced+column && i < forced+column+dates {
@@ -793,7 +818,9 @@ func genProgCase(t *rapid.T, minJobs, maxJobs int) ProgCase {
 			sfx = fmt.Sprintf("%s%c", base, 'a'+i)
 		}
 		shape := builtinsShape
-		if i >= general {
+		if i >= general && deferredCase {
+			shape = shapeDef{shapeDeferred, false}
+		} else if i >= general {
 			shape = shapes[rapid.IntRange(0, len(shapes)-1).Draw(t, "shape")]
 		} else if i >= forced {
 			shape = columnShapes[rapid.IntRange(0, len(columnShapes)-1).Draw(t, "column-shape")]
